@@ -90,6 +90,8 @@ def run(ck):
         "modelled, not verified: Link and Evaluate for modules WITHOUT top-level await; async modules, dynamic import(), JSON/synthetic modules and import attributes are not modelled",
     ]
     ck.prove("BoaVerif.C17.Theorems", driver="drv-c17")
+    # dependency order for the whole walk (invariant through `visit`, fuel measure): every theorem of the file is an obligation
+    ck.prove("BoaVerif.C17.OrderTheorems")
     bins = ck.build_harness(["c17"])
     r = lib.rng(ck.seed)
     quick = ck.tier == "quick"
